@@ -28,6 +28,9 @@ def cases(tier, rng):
                     lens = [0, 1, 63, 64, 65, 130] if rounds != 20 and tier == 'quick' else [0, 1, 2, 31, 32, 33, 63, 64, 65, 100, 127, 128, 129, 191, 192, 193, 256, 257, 320]
                     for n in lens:
                         yield {'k': 'enc', 'c': ciph, 'kb': kb, 'rounds': rounds, 'n': n, 'nc': ['rand', 'zero', 'ones'][(n + rounds) % 3], 'kp': ['rand', 'zero', 'ones', 'walk'][(n // 3 + rounds) % 4]}
+                if rep == 0:
+                    for n in (4095, 4096, 4099) + ((65539,) if kb == 256 and tier == 'thorough' else ()):          # long messages
+                        yield {'k': 'enc', 'c': ciph, 'kb': kb, 'rounds': [20, 12][n % 2], 'n': n, 'nc': 'rand', 'kp': 'rand'}
                 for start in ((1 << 32) - 2, (1 << 32) - 1, 1 << 32, (1 << 32) + 1, (1 << 64) - 2, (1 << 64) - 1, 1 << 33, (1 << 40) + 5, 0xffffffff00000000 - 1):
                     for n in (64, 130, 200):
                         if start + -(-n // 64) > (1 << 64):
@@ -36,6 +39,9 @@ def cases(tier, rng):
         for kl in (list(range(1, 257)) if tier == 'thorough' else [1, 2, 3, 5, 8, 15, 16, 17, 31, 32, 33, 40, 64, 100, 128, 200, 255, 256]):
             for n in (0, 1, 16, 255, 256, 257, 600):
                 yield {'k': 'rc4', 'kl': kl, 'n': n, 'kp': ['rand', 'zero', 'ones', 'asc'][(kl + n) % 4]}
+        if rep == 0:
+            for n in (4099, 65539):
+                yield {'k': 'rc4', 'kl': 16, 'n': n, 'kp': 'rand'}
         for j in range(60 if tier == 'quick' else 300):
             yield {'k': 'rc4-split', 'kl': [1, 5, 16, 256][j % 4], 'n': [0, 1, 7, 40, 300][j % 5], 'pieces': 1 + j % 5, 'empty': j % 3 == 0}
         for j in range(10 if tier == 'quick' else 80):
